@@ -160,8 +160,26 @@ Definition sop_of_sx (s : sx) : option sop :=
   | _ => None
   end%string.
 
+Definition sx_of_hook (h : hookcall) : sx :=
+  match h with
+  | HNodeReady n => SL [SS "nodeready"; sx_nat n]
+  | HNodeDown n e => SL [SS "nodedown"; sx_nat n; sx_bool e]
+  | HCollFinished n => SL [SS "collfinished"; sx_nat n]
+  | HLogStart n i => SL [SS "h_logstart"; sx_nat n; sx_nat i]
+  | HLogFinish n i => SL [SS "h_logfinish"; sx_nat n; sx_nat i]
+  | HReport n i k oc => SL [SS "h_report"; sx_nat n; sx_nat i; sx_nat k; SZ (z_of_outcome oc)]
+  | HCrashItem nid n => SL [SS "h_crashitem"; SS nid; sx_nat n]
+  | HCrashReport nid n => SL [SS "h_crashreport"; SS nid; sx_nat n]
+  | HCollectReport k f => SL [SS "h_collectreport"; sx_nat k; sx_bool f]
+  | HInternalError n => SL [SS "h_internalerror"; sx_nat n]
+  | HWarning => SL [SS "h_warning"]
+  | HSpawn i sp => SL [SS "spawn"; sx_nat i; sx_nat sp]
+  | HSummary d => SL [SS "summary"; sx_bool d]
+  end%string.
+
 Definition sx_of_out (o : out) : sx :=
   match o with
+  | OHook h => sx_of_hook h
   | OSend n c => SL [SS "send"; sx_nat n; sx_of_cmd c]
   | OCollDiff a b => SL [SS "colldiff"; sx_nat a; sx_nat b]
   | OLogDiff a b => SL [SS "logdiff"; sx_nat a; sx_nat b]
